@@ -54,6 +54,27 @@ CHECKS = {
              "engine-level trigger/rollback call sites not covered; two open roll_back findings.",
         technique="contract-based deductive verification: verbatim extraction + Kani contract harnesses (CBMC); single-instruction obligation is a full-domain proof",
     ),
+    "C04": dict(
+        category="other",
+        text="Kernel-level contracts (Kani, bounded sizes) on the collector's data structure: FreeList::allocate never touches a slot other than "
+             "the free one at the cursor and re-establishes wf; weak_collection never frees a slot that still has a handle and never changes "
+             "contents; recount/grow_by keep the free count exact; mark_heap_reference/mark_heap_vector mark once and queue children; the marker's "
+             "container arms queue every child (keys and values of maps, fields, captures ...); the host root table never reuses a live key. "
+             "Level `other` because every loop-carrying obligation is bounded (<= 3 slots / 2 children).",
+        design_ref="DESIGN.md section 3, C04/C19",
+        note="Root enumeration from stacks/continuations/handlers, the parallel marker's own arms, Heap::* orchestration and allocation call sites "
+             "(allocate_vector_iter etc.) are not covered; growth inside allocate (25600 slots) is out of reach.",
+        technique="contract-based deductive verification: verbatim extraction + Kani contract harnesses (CBMC), bounded container sizes",
+    ),
+    "C19": dict(
+        category="other",
+        text="Reclamation side of the same contracts: a weak collection frees every marked slot without a handle and counts it, "
+             "mark_all_unreachable + recount leave an exact free count, marking terminates on revisits (cycles), an unreferenced unmarked cell "
+             "reports None through a weak box. Bounded sizes => level `other`.",
+        design_ref="DESIGN.md section 3, C04/C19",
+        note="'Eventually' and whole-program memory bounds are not decided (liveness); same exclusions as C04.",
+        technique="contract-based deductive verification: verbatim extraction + Kani contract harnesses (CBMC), bounded container sizes",
+    ),
 }
 
 NOT_APPLICABLE = {
